@@ -112,7 +112,7 @@ theorem items_class {o : Opts} {cs : List Chunk} {preB postB : List Block} {bc :
     (H : ItemHost o cs preB postB bc pre post D) (ls' : List Loop) (C : Code) (K : Nat) (hK : K ≤ 2 * D.length + 18)
     (hstep : View o [o.norm bc] (fun x => denote o.dia o.normKey preB ++ [x]) bc →
         ∀ (rest : List TokSpec) (s1 : PS) (w1 : W) (f : Nat), w1.cif = denote o.dia o.normKey preB ++ [.mk bc [] []] →
-        szItems pre + szItems post + K + 1 ≤ f → (∃ ty tx ts, rest = (ty, tx) :: ts ∧ isTerminator ty = true) →
+        szItems pre + szItems post + K + 1 ≤ f → blockFollow rest →
         Feeds o s1 (itemsToks pre ++ (D ++ (itemsToks post ++ rest))) →
         ∃ s2 r, elemsLoop o (f + post.length + 1 + pre.length) s1 (some [o.norm bc]) true acceptAll w1
             = elemsLoop o f s2 (some [o.norm bc]) true acceptAll
@@ -135,7 +135,7 @@ theorem items_class {o : Opts} {cs : List Chunk} {preB postB : List Block} {bc :
     H.wfPostB (fun b hb => List.mem_cons_of_mem _ (List.mem_map.mpr ⟨b, hb, rfl⟩)) List.mem_cons_self
     (by simp only [List.length_append]; omega) ?_
   intro rest1 s1 w1 f hw1 hf hfol hF1
-  have := hstep hv rest1 s1 w1 f hw1 hf (blockFollow_term hfol) (by simpa [List.append_assoc] using hF1)
+  have := hstep hv rest1 s1 w1 f hw1 hf hfol (by simpa [List.append_assoc] using hF1)
   simpa [Nat.add_assoc] using this
 
 /-- … when the class theorem leaves what the items `its` denote and no loop is empty: the repaired document has `its` as the body -/
@@ -144,7 +144,7 @@ theorem items_class_doc {o : Opts} {cs : List Chunk} {preB postB : List Block} {
     (hpk : allPacked (denoteItems o.dia o.normKey its []))
     (hstep : View o [o.norm bc] (fun x => denote o.dia o.normKey preB ++ [x]) bc →
         ∀ (rest : List TokSpec) (s1 : PS) (w1 : W) (f : Nat), w1.cif = denote o.dia o.normKey preB ++ [.mk bc [] []] →
-        szItems pre + szItems post + K + 1 ≤ f → (∃ ty tx ts, rest = (ty, tx) :: ts ∧ isTerminator ty = true) →
+        szItems pre + szItems post + K + 1 ≤ f → blockFollow rest →
         Feeds o s1 (itemsToks pre ++ (D ++ (itemsToks post ++ rest))) →
         ∃ s2 r, elemsLoop o (f + post.length + 1 + pre.length) s1 (some [o.norm bc]) true acceptAll w1
             = elemsLoop o f s2 (some [o.norm bc]) true acceptAll
@@ -169,7 +169,8 @@ theorem C12_chars_missing_value (o : Opts) (cs : List Chunk) (preB postB : List 
     OneReport o cs CIF_MISSING_VALUE (preB ++ [plainBlock bc (pre ++ [.item n .unk] ++ post)] ++ postB) :=
   items_class_doc H _ CIF_MISSING_VALUE 0 (by simp)
     (allPacked_run o pre post _ seen2 H.wfRun hpost (allPacked_item o n .unk))
-    (fun hv rest1 s1 w1 f hw1 hf hterm hF1 =>
+    (fun hv rest1 s1 w1 f hw1 hf hfol hF1 =>
+      have hterm := blockFollow_term hfol
       C12_missing_value o hv pre post n [] seen2 rest1 s1 f w1 [] [] true hw1 H.wfRun (nil_seen o)
         hname hfresh hpost hseen2 (by omega) (Or.inr hterm) (fun _ => hterm) (by simpa using hF1))
 
@@ -182,7 +183,8 @@ theorem C12_chars_unexpected_value (o : Opts) (cs : List Chunk) (preB postB : Li
     OneReport o cs CIF_UNEXPECTED_VALUE (preB ++ [plainBlock bc (pre ++ post)] ++ postB) :=
   items_class_doc H _ CIF_UNEXPECTED_VALUE (szVal v) (by rw [Lemmas.WriterChunks.szVal_toks]; omega)
     (by simpa using allPacked_run o pre post [] seen2 H.wfRun hpost (fun _ h => h))
-    (fun hv rest1 s1 w1 f hw1 hf hterm hF1 =>
+    (fun hv rest1 s1 w1 f hw1 hf hfol hF1 =>
+      have hterm := blockFollow_term hfol
       C12_unexpected_value o hv pre post v [] seen2 rest1 s1 f w1 [] [] true hw1 H.wfRun (nil_seen o) hnoloop hwv hpost hseen2
         (by omega) (fun _ => hterm) hF1)
 
@@ -196,8 +198,163 @@ theorem C12_chars_dup_itemname (o : Opts) (cs : List Chunk) (preB postB : List B
     OneReport o cs CIF_DUP_ITEMNAME (preB ++ [plainBlock bc (pre ++ post)] ++ postB) :=
   items_class_doc H _ CIF_DUP_ITEMNAME (szVal v) (by rw [Lemmas.WriterChunks.szVal_toks]; simp only [List.length_cons]; omega)
     (by simpa using allPacked_run o pre post [] seen2 H.wfRun hpost (fun _ h => h))
-    (fun hv rest1 s1 w1 f hw1 hf hterm hF1 =>
+    (fun hv rest1 s1 w1 f hw1 hf hfol hF1 =>
+      have hterm := blockFollow_term hfol
       C12_dup_itemname o hv pre post n v [] seen2 rest1 s1 f w1 [] [] true hw1 H.wfRun (nil_seen o) hname hdup hwv hpost hseen2
         (by omega) (fun _ => hterm) hF1)
+
+
+theorem denoteVals_eq_map (dia : Dialect) (nk : Str → Str) : ∀ (vs : List Val), denoteVals dia nk vs = vs.map (denoteVal dia nk)
+  | [] => rfl
+  | v :: vs => by simp [denoteVals, denoteVals_eq_map dia nk vs]
+
+theorem denoteVals_eraseIdx (dia : Dialect) (nk : Str → Str) : ∀ (vs : List Val) (i : Nat),
+    (denoteVals dia nk vs).eraseIdx i = denoteVals dia nk (vs.eraseIdx i)
+  | [], _ => rfl
+  | _ :: _, 0 => rfl
+  | v :: vs, i + 1 => by simp [denoteVals, denoteVals_eraseIdx dia nk vs i]
+
+theorem denoteVals_append (dia : Dialect) (nk : Str → Str) (a b : List Val) :
+    denoteVals dia nk (a ++ b) = denoteVals dia nk a ++ denoteVals dia nk b := by
+  simp [denoteVals_eq_map]
+
+/-- **C12_chars_partial_packet** — a loop (valid, new, pairwise different names) with complete packets `ps` and a short last packet
+    `pv` (at least one value, fewer than names).  One report, CIF_PARTIAL_PACKET; the content is that of the document in which the
+    last packet is filled up with unknown values. -/
+theorem C12_chars_partial_packet (o : Opts) (cs : List Chunk) (preB postB : List Block) (bc : Str) (pre post : List Item)
+    (ns : List Str) (ps : List (List Val)) (pv : List Val) (seen2 : List Str)
+    (H : ItemHost o cs preB postB bc pre post
+      ((.loopKw, []) :: (ns.map (fun n => (TokType.name, n)) ++ (packetsToks ps ++ valsToks pv))))
+    (hwf : ∀ n ∈ ns, wfName n = true) (hfresh : ∀ n ∈ ns, o.norm n ∉ normNames o (denoteItems o.dia o.normKey pre []))
+    (hnd : (ns.map o.norm).Nodup) (hlen : ∀ p ∈ ps, p.length = ns.length) (hwv : ∀ p ∈ ps, wfVals o p = true)
+    (hpv : pv ≠ []) (hpl : pv.length < ns.length) (hwpv : wfVals o pv = true)
+    (hpost : wfItems o post seen2 = true)
+    (hseen2 : ∀ k ∈ normNames o (denoteItems o.dia o.normKey
+        [.loop ns (ps ++ [pv ++ List.replicate (ns.length - pv.length) Val.unk])] (denoteItems o.dia o.normKey pre [])), k ∈ seen2) :
+    OneReport o cs CIF_PARTIAL_PACKET
+      (preB ++ [plainBlock bc (pre ++ [.loop ns (ps ++ [pv ++ List.replicate (ns.length - pv.length) Val.unk])] ++ post)] ++ postB) :=
+  items_class_doc H _ CIF_PARTIAL_PACKET (ns.length + szPackets ps + szVals pv + 2)
+    (by
+      rw [Lemmas.WriterChunks.szPackets_toks, Lemmas.WriterChunks.szVals_toks]
+      simp only [List.length_cons, List.length_append, List.length_map]; omega)
+    (allPacked_run o pre post _ seen2 H.wfRun hpost (allPacked_loop o ns _ (by simp)))
+    (fun hv rest1 s1 w1 f hw1 hf hfol hF1 =>
+      have hterm := blockFollow_term hfol
+      C12_partial_packet o hv pre post ns ps pv [] seen2 rest1 s1 f w1 [] [] true hw1 H.wfRun (nil_seen o) hwf hfresh hnd hlen hwv
+        hpv hpl hwpv hpost hseen2 (by omega) (items_rest_head post rest1 hterm) (fun _ => hterm) hF1)
+
+/-- **C12_chars_dup_header_name** — a loop header `ns₁ ++ [n'] ++ ns₂` in which `n'` repeats (normalised comparison, any spelling)
+    a name already defined in the block or one of `ns₁`, with complete packets.  One report, CIF_DUP_ITEMNAME; the content is that of
+    the document whose loop has the header `ns₁ ++ ns₂` and whose packets lack the value of that column. -/
+theorem C12_chars_dup_header_name (o : Opts) (cs : List Chunk) (preB postB : List Block) (bc : Str) (pre post : List Item)
+    (ns1 ns2 : List Str) (n' : Str) (p0 : List Val) (ps : List (List Val)) (seen2 : List Str)
+    (H : ItemHost o cs preB postB bc pre post
+      ((.loopKw, []) :: (ns1.map (fun n => (TokType.name, n)) ++ ((.name, n') ::
+        (ns2.map (fun n => (TokType.name, n)) ++ packetsToks (p0 :: ps))))))
+    (hwf : ∀ n ∈ ns1 ++ ns2, wfName n = true)
+    (hfresh : ∀ n ∈ ns1 ++ ns2, o.norm n ∉ normNames o (denoteItems o.dia o.normKey pre []))
+    (hnd : ((ns1 ++ ns2).map o.norm).Nodup) (hne : ns1 ++ ns2 ≠ []) (hname : wfName n' = true)
+    (hdup : o.norm n' ∈ normNames o (denoteItems o.dia o.normKey pre []) ∨ ∃ m ∈ ns1, o.norm m = o.norm n')
+    (hlen : ∀ p ∈ p0 :: ps, p.length = ns1.length + 1 + ns2.length) (hwv : ∀ p ∈ p0 :: ps, wfVals o p = true)
+    (hpost : wfItems o post seen2 = true)
+    (hseen2 : ∀ k ∈ normNames o (denoteItems o.dia o.normKey
+        (pre ++ [.loop (ns1 ++ ns2) ((p0 :: ps).map (fun p => p.eraseIdx ns1.length))]) []), k ∈ seen2) :
+    OneReport o cs CIF_DUP_ITEMNAME
+      (preB ++ [plainBlock bc (pre ++ [.loop (ns1 ++ ns2) ((p0 :: ps).map (fun p => p.eraseIdx ns1.length))] ++ post)] ++ postB) := by
+  have e : ∀ ls, denoteItems o.dia o.normKey [.loop (ns1 ++ ns2) ((p0 :: ps).map (fun p => p.eraseIdx ns1.length))] ls
+      = ls ++ [mkLoop (ns1 ++ ns2) ((p0 :: ps).map (fun p => (denoteVals o.dia o.normKey p).eraseIdx ns1.length))] := by
+    intro ls
+    simp only [denoteItems, mkLoop, List.map_map]
+    congr 3
+    apply List.map_congr_left
+    intro p _
+    simp [denoteVals_eraseIdx]
+  refine items_class_doc H _ CIF_DUP_ITEMNAME (ns1.length + ns2.length + szPackets (p0 :: ps) + 3)
+    (by
+      rw [Lemmas.WriterChunks.szPackets_toks]
+      simp only [List.length_cons, List.length_append, List.length_map]; omega)
+    (allPacked_run o pre post _ seen2 H.wfRun hpost (allPacked_loop o _ _ (by simp))) ?_
+  intro hv rest1 s1 w1 f hw1 hf hfol hF1
+  have hterm := blockFollow_term hfol
+  have := C12_dup_header_name o hv pre post ns1 ns2 n' p0 ps [] seen2 rest1 s1 f w1 [] [] true hw1 H.wfRun (nil_seen o) hwf hfresh hnd
+    hne hname hdup hlen hwv hpost (by rw [denoteItems_append, e] at hseen2; exact hseen2) (by omega)
+    (items_rest_head post rest1 hterm) (fun _ => hterm) hF1
+  rw [denoteItems_append, denoteItems_append, e]
+  exact this
+
+
+/-! ### the empty loop: accepted without packets, pruned when the container ends -/
+
+theorem putScalar_insert (E : Loop) (hE : Spec.Grammar.isScalarLoop E = false) (n : Str) (x : V) : ∀ (A B : List Loop),
+    ∃ A' B', putScalar (A ++ E :: B) n x = A' ++ E :: B' ∧ putScalar (A ++ B) n x = A' ++ B'
+  | [], B => ⟨[], putScalar B n x, by simp [putScalar, hE], by simp⟩
+  | a :: A0, B => by
+    by_cases ha : Spec.Grammar.isScalarLoop a = true
+    · refine ⟨putScalar [a] n x ++ A0, B, ?_, ?_⟩ <;> simp [putScalar, ha]
+    · obtain ⟨A', B', h1, h2⟩ := putScalar_insert E hE n x A0 B
+      exact ⟨a :: A', B', by simp [putScalar, ha, h1], by simp [putScalar, ha, h2]⟩
+
+theorem denoteItems_insert (dia : Dialect) (nk : Str → Str) (E : Loop) (hE : Spec.Grammar.isScalarLoop E = false) :
+    ∀ (post : List Item) (A B : List Loop),
+    ∃ A' B', denoteItems dia nk post (A ++ E :: B) = A' ++ E :: B' ∧ denoteItems dia nk post (A ++ B) = A' ++ B'
+  | [], A, B => ⟨A, B, rfl, rfl⟩
+  | .item n v :: r, A, B => by
+    obtain ⟨A1, B1, h1, h2⟩ := putScalar_insert E hE n (denoteVal dia nk v) A B
+    obtain ⟨A', B', h3, h4⟩ := denoteItems_insert dia nk E hE r A1 B1
+    exact ⟨A', B', by simp only [denoteItems, h1, h3], by simp only [denoteItems, h2, h4]⟩
+  | .loop ns ps :: r, A, B => by
+    obtain ⟨A', B', h3, h4⟩ := denoteItems_insert dia nk E hE r A (B ++ [{ category := none, names := ns, packets := ps.map (denoteVals dia nk) }])
+    exact ⟨A', B', by simpa only [denoteItems, List.append_assoc, List.cons_append] using h3,
+      by simpa only [denoteItems, List.append_assoc] using h4⟩
+
+/-- an empty loop somewhere among loops that are not empty: pruning removes exactly it -/
+theorem pruneC_empty_loop (o : Opts) (bc : Str) (ns : List Str) (post : List Item) (A : List Loop)
+    (hpk : allPacked (denoteItems o.dia o.normKey post A)) :
+    pruneC (.mk bc [] (denoteItems o.dia o.normKey post (A ++ [mkLoop ns []]))) = .mk bc [] (denoteItems o.dia o.normKey post A) := by
+  obtain ⟨A', B', h1, h2⟩ := denoteItems_insert o.dia o.normKey (mkLoop ns []) rfl post A []
+  rw [List.append_nil] at h2
+  rw [h1, h2]
+  rw [h2] at hpk
+  simp only [pruneC, List.filter_append, List.filter_cons, mkLoop, List.isEmpty_nil, Bool.not_true, Bool.false_eq_true, if_false]
+  congr 1
+  have hA : ∀ l ∈ A', (!l.packets.isEmpty) = true := fun l hl => by simp [hpk l (List.mem_append_left _ hl)]
+  have hB : ∀ l ∈ B', (!l.packets.isEmpty) = true := fun l hl => by simp [hpk l (List.mem_append_right _ hl)]
+  rw [List.filter_eq_self.mpr hA, List.filter_eq_self.mpr hB]
+
+/-- **C12_chars_empty_loop** — a loop header (≥ 1 valid, new, pairwise different names) followed by no value: the next token is
+    `loop_`, a block header, or the end of the input.  One report, CIF_EMPTY_LOOP; the content is that of the document without the
+    loop. -/
+theorem C12_chars_empty_loop (o : Opts) (cs : List Chunk) (preB postB : List Block) (bc : Str) (pre post : List Item)
+    (ns : List Str) (seen2 : List Str)
+    (H : ItemHost o cs preB postB bc pre post ((.loopKw, []) :: ns.map (fun n => (TokType.name, n))))
+    (hns : ns ≠ []) (hwf : ∀ n ∈ ns, wfName n = true)
+    (hfresh : ∀ n ∈ ns, o.norm n ∉ normNames o (denoteItems o.dia o.normKey pre [])) (hnd : (ns.map o.norm).Nodup)
+    (hpost : wfItems o post seen2 = true)
+    (hseen2 : ∀ k ∈ normNames o (denoteItems o.dia o.normKey pre [] ++ [mkLoop ns []]), k ∈ seen2)
+    (hnext : ∀ i r, post = i :: r → ∃ ms ps, i = .loop ms ps) :
+    OneReport o cs CIF_EMPTY_LOOP (preB ++ [plainBlock bc (pre ++ post)] ++ postB) := by
+  obtain ⟨r, h, hr⟩ := items_class H (denoteItems o.dia o.normKey post (denoteItems o.dia o.normKey pre [] ++ [mkLoop ns []]))
+    CIF_EMPTY_LOOP (ns.length + 2) (by simp only [List.length_cons, List.length_map]; omega)
+    (fun hv rest1 s1 w1 f hw1 hf hfol hF1 =>
+      have hterm := blockFollow_term hfol
+      C12_empty_loop o hv pre post ns [] seen2 rest1 s1 f w1 [] [] true hw1 H.wfRun (nil_seen o) hns hwf hfresh hnd hpost hseen2
+        (by omega)
+        (by
+          cases post with
+          | nil =>
+            obtain ⟨ty, tx, ts, rfl, ht⟩ := hfol
+            refine ⟨ty, tx, ts, rfl, ?_, ?_⟩
+            · rcases ht with h | h <;> subst h <;> rfl
+            · rcases ht with h | h <;> subst h <;> decide
+          | cons i r0 =>
+            obtain ⟨ms, ps, rfl⟩ := hnext i r0 rfl
+            exact ⟨.loopKw, [], ms.map (fun n => (TokType.name, n)) ++ (packetsToks ps ++ (itemsToks r0 ++ rest1)),
+              by simp [itemsToks, itemToks], rfl, by decide⟩)
+        (fun _ => hterm) hF1)
+  refine ⟨r, ?_, hr⟩
+  have hpk := allPacked_run o pre post [] seen2 H.wfRun hpost (fun _ h => h)
+  simp only [List.append_nil] at hpk
+  rw [h, denote_plain, denoteItems_append, pruneC_empty_loop]
+  rwa [denoteItems_append] at hpk
 
 end CifModel.Props
